@@ -75,6 +75,33 @@ class RuleCtx:
     def note(self, s):
         self.notes.append(s)
 
+    # -- per-entry-point floors -------------------------------------------------
+    def cover(self, tag, body_id):
+        """record that the rule instance `tag` found its construct in `body_id`"""
+        self.__dict__.setdefault("_cover", {}).setdefault(tag, set()).add(body_id)
+
+    def entry_floor(self, rule, tag, families, what):
+        """Every discovered public entry point of the given families must reach
+        (through the call graph) a body in which the rule found `what`.  Floors
+        are per entry point, so merging or splitting internal siblings does not
+        trip them, while an extractor/anchor failure fails closed."""
+        m = self.model
+        covered = self.__dict__.get("_cover", {}).get(tag, set())
+        fams_seen = set()
+        for e in m.entries:
+            fam = m.family(e)
+            if families is not None and fam not in families:
+                continue
+            fams_seen.add(fam)
+            if not (m.reach(e["id"]) & covered):
+                self.obs.append(Ob(rule, "floor|%s|%s" % (tag, e["name"]), "unverifiable",
+                                   "%s:%d (FnGraph::%s)" % (e["sp"]["file"], e["sp"]["line"], e["name"]),
+                                   "entry point of family %s reaches no %s: anchor not found / extractor failure" % (fam, what), self.cfg))
+        for f in (families or ()):
+            if f not in fams_seen:
+                self.obs.append(Ob(rule, "floor-family|%s|%s" % (tag, f), "unverifiable", "-",
+                                   "no public entry point of family %s discovered" % f, self.cfg))
+
 
 def load_known():
     known = {}
